@@ -411,7 +411,7 @@ def work(chunk, bound):
 def main():
     tier = sys.argv[1] if len(sys.argv) > 1 else 'quick'
     rep = Report('C15', tier, 'model_checking')
-    bound = int(os.environ.get('C15_BOUND', 3 if tier == 'quick' else 4))
+    bound = int(os.environ.get('C15_BOUND', 3 if tier == 'quick' else 5))
     ex = Exec(exe('fast'))
     sizes = {}
     for name in DOCS:
